@@ -325,7 +325,14 @@ def expand_fn(args, sections, unit_file, out, stats):
             stmt_start = src.toks[sb[idx]][2]
             closure_text = src.text[startoff:endoff]
             # closure sections targeting the same closure are applied on the hoisted text by the template
-            ed.insert(stmt_start, f"\n let {vname} = {text.strip() if text.strip() else closure_text};", origin)
+            bars = src.text[startoff:src.toks[kbar][2]]
+            body_txt = src.text[src.toks[kbar][2]:endoff].strip()
+            if text.strip():
+                inner = body_txt if body_txt.startswith("{") else "{ " + body_txt + " }"
+                hoisted = f"{bars} {text.strip()} {inner}"
+            else:
+                hoisted = closure_text
+            ed.insert(stmt_start, f"\n let {vname} = {hoisted};", origin)
             ed.replace(startoff, endoff, vname, ("rule", "R9", src.line_of(startoff)))
             finfo["sections"][-1]["closure_text"] = norm_ws(closure_text)
             stats.rule("R9")
